@@ -824,6 +824,8 @@ def run_ctx(req):
         if st.error is not None:
             obs.append({"kind": mode + ".error", "exc": repr(st.error)})
         for pos, f in enumerate(st.frames):
+            if f.funcname == "coro_aexit_frame":
+                continue     # its manager (the one whose __aexit__ continues the chain) is not a tracked one
             want = list(b.tracked.get(id(f.pyframe), (None, []))[1])
             got = [c.obj for c in f.contexts]
             if want and mode == "ref":
